@@ -167,6 +167,12 @@ func runC01(p *Program, r *Result) {
 	r.Rule("R01.4", "a stanza of another type can only produce the incorrect-identity sentinel", 4)
 	checkTypeGate(p, r)
 
+	// ---- the locked SSH identity finds its stanza wherever it stands (= C19 R19.4)
+	r.Rule("R01.10", "an encrypted SSH identity looks at every stanza before giving up (= R19.4)", 1)
+	checkEncryptedSSHStanzaLoop(p, r)
+	r.Rule("R01.11", "a full buffer is flushed as non-final only when more data is pending (= R12.4)", 1)
+	checkChunkFlushGuard(p, r)
+
 	// ---- recipes
 	r.Rule("R01.5-8", "wrap/unwrap, payload key, STREAM and armor recipes of both halves equal the specification table", 40)
 	checkSites(p, r, recipeSites, "C01")
